@@ -96,32 +96,105 @@ func nest4(flat []float64, d []int) [][][][]float64 {
 // to 4 go through TensorOf with nested data; higher ranks are built flat,
 // reshaped, and turned into a fresh leaf by ResetGradContext.
 func New(dims []int, flat []float64, tracked bool) (Tensor, error) {
-	if len(flat) != Prod(dims) {
-		return nil, fmt.Errorf("bind.New: %d elements for dims %v", len(flat), dims)
+	t, _, err := NewS(dims, flat, tracked)
+	return t, err
+}
+
+// Passed remembers the caller-owned slices that were handed to the library in
+// one call, so that they can be overwritten afterwards (C10: the library must
+// not depend on them any more).
+type Passed struct {
+	Ints    [][]int
+	Ranges  [][]tensor.Range
+	Lists   [][]Tensor
+	Floats1 [][]float64
+}
+
+func (p *Passed) Scribble() {
+	if p == nil {
+		return
 	}
+	for _, s := range p.Ints {
+		for i := range s {
+			s[i] = 7
+		}
+	}
+	for _, s := range p.Ranges {
+		for i := range s {
+			s[i] = tensor.Range{From: 5, To: 9}
+		}
+	}
+	for _, s := range p.Lists {
+		junk, _ := tensor.Full([]int{3}, 99, nil)
+		for i := range s {
+			s[i] = junk
+		}
+	}
+	for _, s := range p.Floats1 {
+		for i := range s {
+			s[i] = 7
+		}
+	}
+}
+
+func rows2(d [][]float64, into *Passed) {
+	for _, r := range d {
+		into.Floats1 = append(into.Floats1, r)
+	}
+}
+
+// NewS is New that also reports the nested data it passed to TensorOf.
+func NewS(dims []int, flat []float64, tracked bool) (Tensor, *Passed, error) {
+	if len(flat) != Prod(dims) {
+		return nil, nil, fmt.Errorf("bind.New: %d elements for dims %v", len(flat), dims)
+	}
+	p := &Passed{}
 	conf := &tensor.Config{Device: tensor.CPU, GradTrack: tracked}
 	switch len(dims) {
 	case 0:
-		return tensor.TensorOf(flat[0], conf)
+		t, err := tensor.TensorOf(flat[0], conf)
+		return t, p, err
 	case 1:
-		return tensor.TensorOf(nest1(flat), conf)
+		d := nest1(flat)
+		p.Floats1 = append(p.Floats1, d)
+		t, err := tensor.TensorOf(d, conf)
+		return t, p, err
 	case 2:
-		return tensor.TensorOf(nest2(flat, dims), conf)
+		d := nest2(flat, dims)
+		rows2(d, p)
+		t, err := tensor.TensorOf(d, conf)
+		return t, p, err
 	case 3:
-		return tensor.TensorOf(nest3(flat, dims), conf)
+		d := nest3(flat, dims)
+		for _, m := range d {
+			rows2(m, p)
+		}
+		t, err := tensor.TensorOf(d, conf)
+		return t, p, err
 	case 4:
-		return tensor.TensorOf(nest4(flat, dims), conf)
+		d := nest4(flat, dims)
+		for _, c := range d {
+			for _, m := range c {
+				rows2(m, p)
+			}
+		}
+		t, err := tensor.TensorOf(d, conf)
+		return t, p, err
 	}
-	t, err := tensor.TensorOf(nest1(flat), &tensor.Config{Device: tensor.CPU})
+	d := nest1(flat)
+	p.Floats1 = append(p.Floats1, d)
+	t, err := tensor.TensorOf(d, &tensor.Config{Device: tensor.CPU})
 	if err != nil {
-		return nil, err
+		return nil, nil, err
 	}
-	t, err = t.Reshape(append([]int(nil), dims...))
+	shape := append([]int(nil), dims...)
+	p.Ints = append(p.Ints, shape)
+	t, err = t.Reshape(shape)
 	if err != nil {
-		return nil, err
+		return nil, nil, err
 	}
 	t.ResetGradContext(tracked)
-	return t, nil
+	return t, p, nil
 }
 
 // Unflat converts a 0-based row-major position to a multi-index.
@@ -160,15 +233,35 @@ func ranges(index [][2]int) []tensor.Range {
 	return out
 }
 
-func cp(s []int) []int {
-	if s == nil {
-		return nil
-	}
-	return append([]int{}, s...)
-}
-
 // Apply executes the instruction op on the real library.
 func Apply(op string, par Par, args []Tensor) (Tensor, error) {
+	t, _, err := ApplyS(op, par, args)
+	return t, err
+}
+
+// ApplyS is Apply that also reports the caller-owned slices it passed.
+func ApplyS(op string, par Par, args []Tensor) (Tensor, *Passed, error) {
+	p := &Passed{}
+	cp := func(s []int) []int {
+		if s == nil {
+			return nil
+		}
+		c := append([]int{}, s...)
+		p.Ints = append(p.Ints, c)
+		return c
+	}
+	ranges := func(index [][2]int) []tensor.Range {
+		r := ranges(index)
+		if r != nil {
+			p.Ranges = append(p.Ranges, r)
+		}
+		return r
+	}
+	t, err := apply(op, par, args, cp, ranges, p)
+	return t, p, err
+}
+
+func apply(op string, par Par, args []Tensor, cp func([]int) []int, ranges func([][2]int) []tensor.Range, p *Passed) (Tensor, error) {
 	switch op {
 	case "full":
 		return tensor.Full(cp(par.Shape), par.K.Float(), nil)
@@ -202,7 +295,9 @@ func Apply(op string, par Par, args []Tensor) (Tensor, error) {
 	case "broadcast":
 		return a.Broadcast(cp(par.Shape))
 	case "concat":
-		return tensor.Concat(append([]Tensor{}, args...), par.Dim)
+		list := append([]Tensor{}, args...)
+		p.Lists = append(p.Lists, list)
+		return tensor.Concat(list, par.Dim)
 	case "sumalong":
 		return a.SumAlong(par.Dim)
 	case "maxalong":
